@@ -304,11 +304,14 @@ func (h *RoutingHeader) MarshalBinary() (data []byte, err error) {
 }
 
 func (h *RoutingHeader) UnmarshalBinary(data []byte) error {
+	if len(data) < 2 {
+		return errors.New("The []byte is too short to unmarshal a full RoutingHeader message.")
+	}
 	n := 0
 	h.NextHeader = data[n]
 	n += 1
 	h.HEL = data[n]
-	if len(data) < 8*int(h.HEL+1) {
+	if len(data) < int(h.Len()) {
 		return errors.New("The []byte is too short to unmarshal a full RoutingHeader message.")
 	}
 	n += 1
